@@ -685,7 +685,7 @@ func runC17(t *testing.T, seed int64, n int, out *Out) {
 		}
 		gres, gerr, gchanged := c17Direct(p.A, gm)
 		out.Line(J{"t": "c17.govrun", "id": 0, "module": g.module, "msg": g.name, "url": g.url, "field": g.field,
-			"res": gres, "err": gerr, "changed": gchanged, "vb": c17ValidateBasic(gm), "nontrivial": gres == "ok"})
+			"res": gres, "err": gerr, "authErr": strings.Contains(gerr, "invalid authority"), "changed": gchanged, "vb": c17ValidateBasic(gm), "nontrivial": gres == "ok"})
 		stats["govrun/"+gres]++
 		if gres == "ok" && len(gchanged) > 0 {
 			stats["govrun/ok+writes"]++
